@@ -132,6 +132,16 @@ static bool gen_c20(uint64_t seed, const std::string &tier, uint64_t i, Plan &p)
         p.ops.push(Json::obj().set("op", "settle").set("max_s", 5000)); p.knobs.set("max_sim_s", 100000).set("default_verdict", "K");
         p.label = "qmail-send failing configuration reread"; break;
       }
+      if (r.chance(0.3)) {
+        // reports around REPORTMAX for a message already past its lifetime: the daemon cuts the text, turns the deferral into a failure
+        // and appends its own sentence; the result goes to the log and into the bounce record
+        conf.set("queuelifetime", 0); p.knobs.set("conf", conf);
+        p.ops.push(Json::obj().set("op", "boot"));
+        for (const char *a : {"a@l.example", "b@r.example"}) { Json sc = Json::obj(); sc.set("op", "script").set("rcpt", a); Json at = Json::arr(); at.push(Json::obj().set("v", "Z").set("text", r.chance(0.5) ? "later\n" : long_text(r))); at.push(Json::obj().set("v", r.pick(std::vector<std::string>{"Z", "Z", "D", "K"})).set("text", long_text(r))); sc.set("attempts", at); p.ops.push(sc); }
+        Json in = Json::obj(); in.set("op", "inject").set("id", "m1").set("sender", "s@x.example").set("body_len", 50).set("body_seed", 1); Json rc = Json::arr(); rc.push("a@l.example"); rc.push("b@r.example"); in.set("rcpts", rc); p.ops.push(in);
+        p.ops.push(Json::obj().set("op", "settle").set("max_s", 5000)); p.knobs.set("max_sim_s", 100000).set("default_verdict", "K");
+        alloc_fault(r, p, "qmail-send"); p.label = "qmail-send: reports around REPORTMAX for a message past its lifetime"; break;
+      }
       Json raw = Json::obj(); int k = (int)r.below(6);
       if (k == 0) raw.set("locals", std::string(1000000, 'l')); else if (k == 1) raw.set("virtualdomains", rnd_bytes(r, 5000)); else if (k == 2) raw.set("percenthack", "l.example"); else if (k == 3) raw.set("concurrencyremote", "99999999999999999999\n"); else if (k == 4) raw.set("queuelifetime", "-5\n"); else raw.set("doublebounceto", std::string(70000, 'd'));
       p.knobs.set("control_raw", raw);
